@@ -167,14 +167,14 @@ theorem take_takeWhile_length {α : Type} (p : α → Bool) (xs : List α) :
   induction xs with
   | nil => rfl
   | cons a xs ih =>
-    cases hpa : p a <;> simp [List.takeWhile_cons, hpa, ih]
+    cases hpa : p a <;> simp [hpa, ih]
 
 theorem drop_takeWhile_length {α : Type} (p : α → Bool) (xs : List α) :
     xs.drop (xs.takeWhile p).length = xs.dropWhile p := by
   induction xs with
   | nil => rfl
   | cons a xs ih =>
-    cases hpa : p a <;> simp [List.takeWhile_cons, List.dropWhile_cons, hpa, ih]
+    cases hpa : p a <;> simp [List.dropWhile_cons, hpa, ih]
 
 theorem takeWhile_length_mono {α : Type} (p q : α → Bool) (xs : List α)
     (h : ∀ x ∈ xs, p x = true → q x = true) : (xs.takeWhile p).length ≤ (xs.takeWhile q).length := by
@@ -200,6 +200,15 @@ theorem pairwise_trichotomy {α : Type} (R : α → α → Prop) (xs : List α) 
     · exact Or.inr (Or.inl (hx b hb'))
     · exact Or.inr (Or.inr (hx a ha'))
     · exact ih ht a ha' b hb'
+
+theorem filterMap_congr' {α β : Type} (f g : α → Option β) (l : List α) (h : ∀ x ∈ l, f x = g x) :
+    l.filterMap f = l.filterMap g := by
+  induction l with
+  | nil => rfl
+  | cons a l ih =>
+    have ha := h a List.mem_cons_self
+    have ih' := ih (fun x hx => h x (List.mem_cons_of_mem _ hx))
+    simp only [List.filterMap_cons, ha, ih']
 
 /-! ### association lists -/
 
